@@ -602,3 +602,39 @@ func boolToInt(b bool) int {
 	}
 	return 0
 }
+
+// ChromaticNumberFast: minimum number of independent sets covering V, by DP over vertex subsets with small integers
+// (f[S] = 1 + min over independent I within S containing the lowest vertex of S of f[S \ I]); O(3^n), n <= 14.
+func ChromaticNumberFast(g *G) int {
+	n := g.N
+	if n == 0 {
+		return 0
+	}
+	adj := g.masks()
+	size := 1 << uint(n)
+	indep := make([]bool, size)
+	indep[0] = true
+	for s := 1; s < size; s++ {
+		v := bits.TrailingZeros32(uint32(s))
+		rest := s &^ (1 << uint(v))
+		indep[s] = indep[rest] && adj[v]&uint32(rest) == 0
+	}
+	f := make([]uint8, size)
+	for s := 1; s < size; s++ {
+		low := s & -s
+		rest := s &^ low
+		best := uint8(255)
+		for t := rest; ; t = (t - 1) & rest {
+			if indep[low|t] {
+				if c := f[s&^(low|t)] + 1; c < best {
+					best = c
+				}
+			}
+			if t == 0 {
+				break
+			}
+		}
+		f[s] = best
+	}
+	return int(f[size-1])
+}
